@@ -2,6 +2,7 @@ use crate::internal::language::Language;
 use crate::internal::stringpool::{StringPool, StringRef};
 use std::convert::From;
 use std::fmt;
+use std::io;
 use uuid::Uuid;
 
 // ========================================================================= //
@@ -170,12 +171,30 @@ pub enum ValueRef {
 impl ValueRef {
     /// Interns the given value into the string pool (if it is a string), and
     /// returns a corresponding `ValueRef`.
+    ///
+    /// Panics if the string pool is full; see `try_create`.
+    #[allow(dead_code)]
     pub fn create(value: Value, string_pool: &mut StringPool) -> ValueRef {
-        match value.into_stored() {
+        match ValueRef::try_create(value, string_pool) {
+            Ok(value_ref) => value_ref,
+            Err(error) => panic!("{}", error),
+        }
+    }
+
+    /// Interns the given value into the string pool (if it is a string), and
+    /// returns a corresponding `ValueRef`, or an error if the string pool has
+    /// no room for another distinct string.
+    pub fn try_create(
+        value: Value,
+        string_pool: &mut StringPool,
+    ) -> io::Result<ValueRef> {
+        Ok(match value.into_stored() {
             Value::Null => ValueRef::Null,
             Value::Int(number) => ValueRef::Int(number),
-            Value::Str(string) => ValueRef::Str(string_pool.incref(string)),
-        }
+            Value::Str(string) => {
+                ValueRef::Str(string_pool.try_incref(string)?)
+            }
+        })
     }
 
     /// Removes the reference from the string pool (if is a string reference).
